@@ -64,7 +64,13 @@ func xCert(subject []byte, nbTag byte, nb string, naTag byte, na string, sigAlg 
 
 func emitCertX(op string, der []byte, exp ...string) {
 	var res string
-	if op == "certxpem" {
+	if op == "certxtrust" {
+		// OpenSSL "TRUSTED CERTIFICATE": the certificate followed by a trust-settings SEQUENCE (x509 -trustout -addtrust)
+		aux := xSeq(xSeq(xOID(1, 3, 6, 1, 5, 5, 7, 3, 1)))
+		res = guard(func() string {
+			return resInfo(inspectBytes("c.pem", pem.EncodeToMemory(&pem.Block{Type: "TRUSTED CERTIFICATE", Bytes: append(append([]byte{}, der...), aux...)})))
+		})
+	} else if op == "certxpem" {
 		res = guard(func() string {
 			return resInfo(inspectBytes("c.pem", pem.EncodeToMemory(&pem.Block{Type: "CERTIFICATE", Bytes: der})))
 		})
@@ -113,6 +119,7 @@ func genCertX(tier string, r *rng) {
 		emitCertX("certx", xCert(cn("s"), 23, "200101000000Z", 23, "300101000000Z", s.alg, ecSpki), "SIG", s.want)
 		emitCertX("certxpem", xCert(cn("s"), 23, "200101000000Z", 23, "300101000000Z", s.alg, ecSpki), "SIG", s.want)
 	}
+	emitCertX("certxtrust", xCert(cn("trusted"), 23, "200101000000Z", 23, "300101000000Z", ecdsa256, ecSpki), "SUBJ", "CN=trusted", "NB", "2020-01-01", "DESC", "x.509v3")
 	// subject public keys: RSASSA-PSS (same key material as rsaEncryption, other algorithm OID)
 	var spkiParsed struct {
 		Alg asn1.RawValue
@@ -134,6 +141,10 @@ func genCertX(tier string, r *rng) {
 
 func init() {
 	ops["certx"] = func(a []string) string { return resInfo(inspectBytes("c.der", unhx(a[0]))) }
+	ops["certxtrust"] = func(a []string) string {
+		aux := xSeq(xSeq(xOID(1, 3, 6, 1, 5, 5, 7, 3, 1)))
+		return resInfo(inspectBytes("c.pem", pem.EncodeToMemory(&pem.Block{Type: "TRUSTED CERTIFICATE", Bytes: append(unhx(a[0]), aux...)})))
+	}
 	ops["certxpem"] = func(a []string) string {
 		return resInfo(inspectBytes("c.pem", pem.EncodeToMemory(&pem.Block{Type: "CERTIFICATE", Bytes: unhx(a[0])})))
 	}
